@@ -178,14 +178,16 @@ func RefVoteWeight(sv StakeView, v UVote) (uint64, error) {
 	if v.R.Round < rec.VoteFirstValid || (rec.VoteLastValid != 0 && v.R.Round > rec.VoteLastValid) {
 		return 0, fmt.Errorf("outside key validity")
 	}
+	// Which values a step may carry: a vote for "no value" is meaningless in propose, soft and cert (a
+	// certificate for bottom would certify nothing). The fast-recovery steps (late/redo/down) are next-
+	// vote-like: honest nodes only ever vote a value in late/redo and bottom in down, but a signed vote
+	// that does otherwise is still a genuine vote of that key - the property does not call it invalid, and
+	// the code accepts it. (An earlier version of this reference rejected those: a false alarm found by
+	// the thorough tier, see DESIGN.md 11.)
 	switch v.R.Step {
-	case stepPropose, stepSoft, stepCert, stepLate, stepRedo:
+	case stepPropose, stepSoft, stepCert:
 		if v.R.Proposal.IsBottom() {
 			return 0, fmt.Errorf("bottom not allowed in step %d", v.R.Step)
-		}
-	case stepDown:
-		if !v.R.Proposal.IsBottom() {
-			return 0, fmt.Errorf("down must be bottom")
 		}
 	}
 	if v.R.Step == stepPropose {
